@@ -480,7 +480,7 @@ class CoreCheck:
             if r["violated"]:
                 p = L.save_replay(self.pid, f"{cfg}-tlc-counterexample.txt", r["out"][-20000:])
                 self.v.violation(p, f"TLC: the buffer design violates the clean-slate invariants in {cfg}")
-        for cfg in ("Buffers_found_connecting.cfg", "Buffers_found_stop.cfg"):
+        for cfg in ("Buffers_found_connecting.cfg", "Buffers_found_stop.cfg", "Buffers_found_purgetwo.cfg"):
             r = L.run_tlc("Buffers", cfg, self.wd, workers=2, timeout=300)
             res["as_found"].append({"config": cfg, "found": r["violated"]})
             if not r["violated"]:
